@@ -27,13 +27,14 @@ TCoreParent == <<7, 7, 8, 8, 9, 9, 10, 10, 11, 12, 12>>
 TCoreArea   == <<1, 2, 2, 1, 2, 2>>
 TCoreHeight == (7 :> 1) @@ (8 :> 2) @@ (9 :> 3)
 TCoreSym    == (7 :> 3) @@ (8 :> 3) @@ (9 :> 1)
+\* (block 8 does not hold a, assembly 11 does not hold c: edits above them are distributed over a proper subset of the children)
 TCoreN0 == << [a |-> <<1, 1>>, b |-> <<2, 1>>, c |-> Z],
              [a |-> <<2, 1>>, b |-> Z,        c |-> <<1, 1>>],
-             [a |-> <<1, 1>>, b |-> <<1, 1>>, c |-> Z],
+             [a |-> Z,        b |-> <<1, 1>>, c |-> Z],
              [a |-> Z,        b |-> Z,        c |-> <<2, 1>>],
              [a |-> <<3, 1>>, b |-> <<1, 1>>, c |-> Z],
-             [a |-> Z,        b |-> <<2, 1>>, c |-> <<1, 1>>] >>
-TCoreH0 == << {"a", "b"}, {"a", "c"}, {"a", "b"}, {"c"}, {"a", "b"}, {"b", "c"} >>
+             [a |-> Z,        b |-> <<2, 1>>, c |-> Z] >>
+TCoreH0 == << {"a", "b"}, {"a", "c"}, {"b"}, {"c"}, {"a", "b"}, {"b"} >>
 TCoreTargets == {1, 5, 7, 10, 12}
 TCoreTargetsQ == {1, 7, 10, 12}
 TCoreTargetsProbe == {1, 5, 7}
